@@ -76,7 +76,7 @@ CHECKS = {
  "C14": dict(
    engine="simpool",
    category="exploration",
-   text="Batched clause only. misorientation_indices is driven through a simulated pool (SimPool: discrete-event model of the multiprocessing.Pool API with 1..16 simulated workers, seeded heavy-tailed task durations, stalls, lazy feeding, chunking, so that completion order differs from submission order) on both entry paths (pool=, and ncpus= with pydrex.diagnostics.Pool rebound to a SimPool factory) and through the Ray branch against a stub, in histories of 1-4 calls in which an external pool is reused with other stacks / lattice systems / bin counts; the output must equal the scalar misorientation_index applied snapshot by snapshot (evaluated in children forked from the run's pristine state), bit for bit and in order, with every snapshot handed to the pool exactly once in snapshot order. SimPool models imap / imap_unordered / map / starmap / map_async / apply_async (callbacks fire in completion order) and the context-manager lifecycle. Real multiprocessing.Pool runs (1, 2, 3, 7, 16 workers, external pool) are an uncontrolled supplement reported separately.",
+   text="Batched clause only. misorientation_indices is driven through a simulated pool (SimPool: discrete-event model of the multiprocessing.Pool API with 1..16 simulated workers, seeded heavy-tailed task durations, stalls, lazy feeding, chunking, so that completion order differs from submission order) on both entry paths (pool=, and ncpus= with pydrex.diagnostics.Pool rebound to a SimPool factory) and through the Ray branch against a stub, in histories of 1-4 calls in which an external pool is reused with other stacks / lattice systems / bin counts; the output must equal the scalar misorientation_index applied snapshot by snapshot (evaluated in children forked from the run's pristine state), bit for bit and in order (stacks include runs of consecutive identical snapshots). SimPool models imap / imap_unordered / map / starmap / map_async / apply_async (callbacks fire in completion order) and the context-manager lifecycle. Real multiprocessing.Pool runs (1, 2, 3, 7, 16 workers, external pool) are an uncontrolled supplement reported separately.",
    design_ref="DESIGN.md 4.8",
    note="the pool and Ray are stubs modelling the documented ordering guarantees; what is decided is that PyDRex's result assembly does not depend on completion order; scalar clauses of C14 (range, invariances, limits) are pure functions and not claimed",
    technique="deterministic simulation: discrete-event simulated worker pool with seeded completion orders",
